@@ -22,6 +22,7 @@ func init() {
 			{Name: "REF-COUNT", What: "sam.readRefRecords' loop runs to the reference count it is given, not to the length of a slice allocated with a cap (added after eighth-round seed C05-j: a header with more than 1000 references)", Floor: 1, Run: ruleRefCount},
 			{Name: "SCAN-LIMIT", What: "no parser of package sam reads lines through a bufio.Scanner with the default 64 KiB token limit: a header line may be longer (shared with C07; here since thirteenth-round seed C05-n)", Floor: 0, Run: ruleScanLimit([]string{"sam"})},
 			{Name: "HEX-TEXT", What: "an H aux field is held – and so written to BAM – as hexadecimal text, the format's encoding, not as the raw bytes (shared with C06; added for a defect of the unchanged tree, repaired 38d8749)", Floor: 4, Run: ruleHexText},
+			{Name: "MEMO-COHERENT", What: "String of Reference, ReadGroup and Program writes nothing into its receiver – or, where it keeps what it computed, every function that assigns another field of an existing item renews the kept field too: the header text written is that of the current values (added after fifteenth-round seed C05-p, first left unreported)", Floor: 3, Run: ruleMemoCoherent},
 			{Name: "DATE-ZONE", What: "a read group date is written with a layout that carries the zone, and in UTC where the zone offset has seconds: the BAM header text names the same instant (shared with C07)", Floor: 1, Run: ruleDateZone},
 			{Name: "ERR-LATCH", What: "bam.Reader.Read consults the buffer's sticky error; EncodeBinary consults its errWriter", Floor: 2,
 				Run: ruleStickyErr([]latchCfg{{pkg: "bam", fn: "(*Reader).Read", typ: "buffer", fld: "err"}, {pkg: "sam", fn: "(*Header).EncodeBinary", typ: "errWriter", fld: "err"}})},
